@@ -182,12 +182,16 @@ func (p *j5sPrinter) enumOption(name string, info [][]string) {
 	if strings.HasPrefix(name, "NUM") && len(name) > 3 && strings.Trim(name[3:], "0123456789") == "" {
 		declared = name[3:] // the option declares `number = N` (ignored by the compiler: numbering is positional)
 	}
-	if len(info) == 0 && declared == "" {
+	noted := name == "NOTED" // the option carries a description
+	if len(info) == 0 && declared == "" && !noted {
 		p.line("option %s", name)
 		return
 	}
 	p.line("option %s {", name)
 	p.ind++
+	if noted {
+		p.line("| an option with a description")
+	}
 	if declared != "" {
 		p.line("number = %s", declared)
 	}
